@@ -20,6 +20,58 @@ def minimal_ranks(N, rng, ttm_M=None, allow_one=True):
         R[k] = min(R[k], R[k + 1] * sz[k])
     return R
 
+def interface_projectors(x, torch, torchtt):
+    """dense A_1..A_{d-1}, B_1..B_{d-1} (n x n matrices, n = number of entries) built from the orthogonal gauges that riemannian_projection computes"""
+    from torchtt._decomposition import lr_orthogonal, rl_orthogonal
+    l_cores, R = lr_orthogonal(x.cores, x.R, x.is_ttm)
+    r_cores, _ = rl_orthogonal(l_cores, R, x.is_ttm)
+    d = len(x.N)
+    sz = [int(c.numel() // (c.shape[0] * c.shape[-1])) for c in l_cores]
+    n = int(np.prod(sz))
+    mats = lambda cs: [c.reshape(c.shape[0], -1, c.shape[-1]) for c in cs]
+    lc, rc = mats(l_cores), mats(r_cores)
+    A, B = [torch.eye(n, dtype=torch.float64)], [None]
+    U = torch.ones(1, 1, dtype=torch.float64)
+    for k in range(1, d):
+        U = torch.einsum('ar,rib->aib', U, lc[k - 1]).reshape(-1, lc[k - 1].shape[-1])          # (n_1..n_k) x r_k
+        rest = int(np.prod(sz[k:]))
+        A.append(torch.kron(U @ U.T, torch.eye(rest, dtype=torch.float64)))
+    Vs = {}
+    Vm = torch.ones(1, 1, dtype=torch.float64)
+    for k in range(d - 1, 0, -1):
+        Vm = torch.einsum('rib,bs->ris', rc[k], Vm).reshape(rc[k].shape[0], -1)                    # r_k x (n_{k+1}..n_d)
+        Vs[k] = Vm
+    for k in range(1, d):
+        B.append(torch.kron(torch.eye(int(np.prod(sz[:k])), dtype=torch.float64), Vs[k].T @ Vs[k]))
+    return A, B
+
+def hypotheses_failures(x, z, Pz, torch, torchtt, tol=1e-9):
+    """the hypotheses of C16_proj_idempotent / _selfadjoint measured on the gauges of the implementation, and the bridge P_impl(z) = proj formula"""
+    A, B = interface_projectors(x, torch, torchtt)
+    d = len(x.N); fails = []
+    nr = lambda M_: float(M_.norm())
+    for j in range(1, d):
+        if nr(A[j] - A[j].T) > tol * nr(A[j]): fails.append("hypothesis: A_%d is not self-adjoint" % j)
+        if nr(B[j] - B[j].T) > tol * nr(B[j]): fails.append("hypothesis: B_%d is not self-adjoint" % j)
+        if nr(B[j] @ B[j] - B[j]) > tol * nr(B[j]): fails.append("hypothesis: B_%d is not idempotent" % j)
+        for k in range(1, d):
+            if nr(A[j] @ A[k] - A[max(j, k)]) > tol * nr(A[max(j, k)]): fails.append("hypothesis: A_%d A_%d != A_%d (nesting)" % (j, k, max(j, k)))
+            if j <= k and nr(A[j] @ B[k] - B[k] @ A[j]) > tol * nr(A[j]) * nr(B[k]): fails.append("hypothesis: A_%d does not commute with B_%d" % (j, k))
+    def vec(t):                                   # entries in the order (m_1 n_1)(m_2 n_2)... of the cores
+        f = t.full()
+        if t.is_ttm: f = f.permute([i for k in range(d) for i in (k, d + k)])
+        return f.reshape(-1)
+    xv = vec(x); zv = vec(z)
+    for j in range(1, d):
+        if float((A[j] @ xv - xv).norm()) > tol * float(xv.norm()): fails.append("hypothesis: A_%d x != x" % j)
+        if float((B[j] @ xv - xv).norm()) > tol * float(xv.norm()): fails.append("hypothesis: B_%d x != x" % j)
+    form = A[d - 1] @ zv
+    for k in range(1, d):
+        form = form + (A[k - 1] - A[k]) @ (B[k] @ zv)
+    if float((vec(Pz) - form).norm()) > tol * max(float(zv.norm()), 1e-300):
+        fails.append("bridge: riemannian_projection(x, z) differs from sum_k (A_{k-1} - A_k) B_k z + A_{d-1} z built from the same gauges")
+    return fails
+
 def run(tier, seed, replay=None):
     import torch, torchtt
     from torchtt.manifold import riemannian_projection as P, riemannian_gradient as RG
@@ -29,6 +81,7 @@ def run(tier, seed, replay=None):
     ok_make, obl = proofcheck.obligations(PID, V)
     n = 70 if tier == "quick" else 1200
     dist, samples = {}, []
+    n_hyp = 0
     dt = torch.float64
     dot = lambda a, b: float((a.full() * b.full()).sum())
     nrm = lambda a: float(a.full().norm())
@@ -62,6 +115,8 @@ def run(tier, seed, replay=None):
             Px = P(x, x)
             if nrm(Px - x) > TOL * nrm(x): fails.append("P(x) != x: relative difference %.3g" % (nrm(Px - x) / nrm(x)))
             if abs(dot(z - Pz, Pw)) > TOL * nrm(z) * nrm(w): fails.append("residual z - P(z) is not orthogonal to P(w)")
+            if int(np.prod(N)) * (int(np.prod(M)) if ttm else 1) <= 600:      # the theorems' hypotheses and the formula, measured on this base point's gauges
+                fails += hypotheses_failures(x, z, Pz, torch, torchtt); n_hyp += 1
             Pz2 = P(x, z)                                           # the argument must still be usable
             if nrm(Pz2 - Pz) > TOL * sc: fails.append("a second P(x, z) differs from the first (argument overwritten?)")
             bad = solverkit.intact(snaps, [x, z, w])
@@ -69,12 +124,16 @@ def run(tier, seed, replay=None):
             # Riemannian gradient = projection of the dense Euclidean gradient
             fam = rng.choice(["quadratic", "linear", "quartic"])
             tgt = mk(solverkit.ranks(rng, d, 2))
-            if fam == "quadratic": f = lambda y: (y - tgt).norm() ** 2; egrad = 2.0 * (x - tgt)
-            elif fam == "linear": f = lambda y: torchtt.dot(y, tgt) if not ttm else (y * tgt).sum(); egrad = tgt
-            else: f = lambda y: ((y * y) * (y * y)).sum() if True else None; egrad = 4.0 * (x * x * x)
+            cw = rng.choice([1.0, 1.0, 1.0, 1e-20, 1e-12, 1e5])          # weight of the objective: grad(c f) = c grad(f) at every magnitude
+            if fam == "quadratic": f0 = lambda y: (y - tgt).norm() ** 2; egrad = 2.0 * (x - tgt)
+            elif fam == "linear": f0 = lambda y: torchtt.dot(y, tgt) if not ttm else (y * tgt).sum(); egrad = tgt
+            else: f0 = lambda y: ((y * y) * (y * y)).sum() if True else None; egrad = 4.0 * (x * x * x)
+            f = (lambda y: cw * f0(y)) if cw != 1.0 else f0
+            egrad = cw * egrad if cw != 1.0 else egrad
+            dist["objective weight %g" % cw] = dist.get("objective weight %g" % cw, 0) + 1
             g = RG(x.clone(), f)
             ref = P(x, egrad)
-            if nrm(g - ref) > 1e-8 * max(nrm(ref), 1e-300) + 1e-10: fails.append("riemannian_gradient differs from P(Euclidean gradient) [%s]: rel %.3g" % (fam, nrm(g - ref) / max(nrm(ref), 1e-300)))
+            if nrm(g - ref) > 1e-8 * max(nrm(ref), 1e-300) + 1e-10 * cw: fails.append("riemannian_gradient differs from P(Euclidean gradient) [%s]: rel %.3g" % (fam, nrm(g - ref) / max(nrm(ref), 1e-300)))
             if any(int(a_) > 2 * int(b_) for a_, b_ in zip(g.R, x.R)): fails.append("ranks of the gradient exceed twice those of x")
         except Exception as ex:
             V.fail("raises %s [%s]" % (type(ex).__name__, key), dict(desc, exc=str(ex)[:200])); continue
@@ -84,9 +143,13 @@ def run(tier, seed, replay=None):
     cov = proofcheck.coverage(PID, obl, evaluations=n, distinct_nontrivial=len(dist),
         rule=("base points x of order 2..5 with achievable (rounded) rank profiles incl. interior ranks equal to 1, TT tensors and TT matrices, tensors z, w of arbitrary ranks; "
               "measured on the implementation to 1e-9 relative: linearity, idempotence, self-adjointness, P(x) = x, orthogonality of z - P(z) to P(w), rank bound 2r, repeatability "
-              "of P(x, z), bitwise integrity of x, z, w; riemannian_gradient against the projection of the dense Euclidean gradient for quadratic / linear / quartic f"),
-        samples=samples, distribution=dist, known_findings_reproduced=V.known_hit,
-        partial=["idempotence and self-adjointness of P need the commutation / nesting relations of the interface projectors and the bridge 'the einsum recursions compute "
-                 "(A_{k-1} - A_k) B_k z'; both are measured, not proved. Proved: P fixes the base point, P is linear, ranks at most double"])
+              "of P(x, z), bitwise integrity of x, z, w; on base points with at most 600 entries the hypotheses of the idempotence / self-adjointness theorems (A_j A_k = A_max, "
+              "B_k^2 = B_k, A_j B_k = B_k A_j for j <= k, symmetry, A_k x = B_k x = x) are measured on dense projectors built from lr_orthogonal / rl_orthogonal, and P(x, z) is compared with the "
+              "formula of the model; riemannian_gradient against the projection of the dense Euclidean gradient for quadratic / linear / quartic f weighted by 1, 1e-20, 1e-12, 1e5"),
+        samples=samples, distribution=dist, known_findings_reproduced=V.known_hit, base_points_with_hypotheses_and_formula_measured=n_hyp,
+        partial=["proved (for every order and rank profile): the formula P = sum_k (A_{k-1} - A_k) B_k + A_{d-1} is linear, idempotent, self-adjoint, fixes the base point and leaves "
+                 "residuals orthogonal to its range, GIVEN the nesting / idempotence / commutation / self-adjointness relations of the interface projectors; that the gauges computed "
+                 "by lr_orthogonal / rl_orthogonal satisfy those relations and that the einsum recursions compute the formula is measured on every small base point (dense A_k, B_k built "
+                 "from the implementation's own gauges), not proved"])
     common.write_evidence(PID, tier, seed, cov, time.time() - t0, nviol, common.TRUSTED_BASE)
     return 1 if nviol else 0
